@@ -275,9 +275,12 @@ well-formed catable streams, C03, and splicing never lengthens, which is checked
 — `splice_room.checked`, signature `multi:assumption:splice-expands` — but not proved here).
 Missing for the full statement: `hroom` as a theorem about the concatenator model, and the
 per-job bounds as a theorem about the encoder (C08 gives `piece + 4·(piece≫14) + 22` per
-job; the harness records the observed slack: ≤ 9 for catable jobs, ≤ 17 with the magic
-header, so (a) applies with (c0, ci) = (17, 9) for t ≤ 13 and needs the stripped headers —
-one window field and one end marker per joint — to be accounted for above that). -/
+job; the harness records the observed slack at quality ≥ 2 (thorough tier, 2 × 6400 cases):
+≤ 10 for catable jobs, ≤ 9 for job 0, ≤ 18 for job 0 with the magic header — so (a) applies as
+it stands with (c0, ci) = (18, 10) for t ≤ 6; above that the bytes saved at every joint (one
+window field and one end marker stripped) have to be accounted for, which (a) does not do.
+On the real code the bound was never exceeded (search oracle `multi:sized-not-ok`; worst case
+probed: 16 threads × incompressible 16 KiB-aligned pieces, 62 bytes of margin left). -/
 theorem multi_succeeds_when_sized_partial (sp : Spawner) (t n cap c0 ci : Nat) (jobs : Nat → JobRes)
     (bs : List (List Nat)) (ht : 1 ≤ t) (hp : sp = .pool → t ≤ BV.Gen.MAX_THREADS) (hn : n < 2 ^ 62) (hn0 : 0 < n)
     (hlen : bs.length = t) (hj : ∀ i b, bs[i]? = some b → jobs i = .ok b)
@@ -292,9 +295,9 @@ theorem multi_succeeds_when_sized_partial (sp : Spawner) (t n cap c0 ci : Nat) (
   obtain ⟨out, hout⟩ := Option.isSome_iff_exists.mp this
   exact ⟨out, multi_ok_complete sp t jobs cap bs out ht hp hlen hj hout, hout⟩
 
-/-- non-vacuity of the size condition: the observed worst slacks (17, 9) satisfy it up to 13
+/-- non-vacuity of the size condition: the observed worst slacks (18, 10) satisfy it up to 6
 threads, (14, 8) for every thread count -/
-example : ∀ t, 1 ≤ t → t ≤ 13 → 17 + 9 * (t - 1) + 1 ≤ 22 + 8 * t := by intro t h1 h2; omega
+example : ∀ t, 1 ≤ t → t ≤ 6 → 18 + 10 * (t - 1) + 1 ≤ 22 + 8 * t := by intro t h1 h2; omega
 example : ∀ t, 1 ≤ t → 14 + 8 * (t - 1) + 1 ≤ 22 + 8 * t := by intro t h1; omega
 example : maxCompressedSizeMulti 5000 4 = 5054 ∧ maxCompressedSize 0 = 17 := by decide
 
